@@ -623,6 +623,8 @@ def run_config(config, bundle, request, world, stream, policy=None,
     )
     if request.get("root") is not None:
         kw["root"] = request["root"]
+    if request.get("validators") is not None:
+        kw["validators"] = request["validators"]
     kref = lambda: kernel  # noqa: E731
     if instrumentation_factory is not None:
         kw["instrumentation"] = instrumentation_factory(kref)
